@@ -110,6 +110,25 @@ theorem C34_schedule_spacing (refresh : Nat) (minRefresh : Option Nat) (runs : L
       simp only [schedStarts, List.getElem_cons_succ]
       exact ih _ j (by simpa [schedStarts] using h)
 
+/-- The start of the run after a run whose data set expires before its end + refresh, with
+min-refresh set: exactly the expiry, but not earlier than min-refresh after the wait was
+computed. -/
+theorem C34_next_start_early_expiry (fin lag refresh m e : Nat) (he : e < fin + refresh) :
+    (fin + lag) + refreshWait (nextUpdateStart fin refresh (some e)) (fin + lag) refresh (some m)
+      = max e (fin + lag + m) := by
+  rw [C34_next_start]
+  simp [nextUpdateStart, he]
+
+/-- The same inside any run sequence: every run of the sequence is the head of a suffix
+(`schedStarts … t (x :: xs) = t :: schedStarts … t' xs`), and the start following the head
+run is the expiry bounded below by min-refresh. -/
+theorem C34_schedule_early_expiry (refresh m t e : Nat) (x : SchedRun) (xs : List SchedRun)
+    (hx : x.expiry = some e) (he : e < t + x.dur + refresh) :
+    schedStarts refresh (some m) t (x :: xs)
+      = t :: schedStarts refresh (some m) (max e (t + x.dur + x.lag + m)) xs := by
+  simp only [schedStarts, hx]
+  rw [C34_next_start_early_expiry (t + x.dur) x.lag refresh m e he]
+
 /-! Non-vacuity: refresh 600 s, min-refresh 60 s, run finished at t = 1000 s. -/
 example : refreshWait (nextUpdateStart 1000 600 (some 1200)) 1000 600 (some 60) = 200 := by decide
 example : refreshWait (nextUpdateStart 1000 600 (some 1010)) 1000 600 (some 60) = 60 := by decide
